@@ -460,7 +460,7 @@ def worker(spec):
                     progs.append(p)
         progs += list(progen.random_programs(rng, spec['random_n'], size=spec.get('size', 12)))
         # the binding-construct scenarios are few: all of them in every run; the raise/handler family is stepped in quick
-        bfam = list(progen.binding_scenario_programs()) + list(progen.escape_scenario_programs())
+        bfam = list(progen.binding_scenario_programs()) + list(progen.escape_scenario_programs()) + list(progen.conditionally_bound_programs()) + list(progen.list_iteration_programs())
         progs += [p for i, p in enumerate(bfam) if i % spec['nshards'] == spec['shard']]
         fam = list(progen.raise_handler_programs(info=info))
         step = spec.get('family_step', 1)
